@@ -93,17 +93,21 @@ mm = np.arange(1, t.n_atoms + 1, dtype=float)
 chk("density(masses)", md.density(t, masses=mm), mm.sum() / t.unitcell_volumes * 1.66053907, 1e-4)
 ''',
     "dipoles": '''
-t = system(n_frames=2); q = np.linspace(-0.8, 0.9, t.n_atoms)
+t = system(n_frames=2); q = np.linspace(-0.8, 0.9, t.n_atoms); q -= q.mean()          # neutral: the dipole does not depend on the origin
 got = md.geometry.dipole_moments(t, q)
-# independent: positions rebuilt by minimum image relative to the first atom of each residue and then to atom 0 (orthorhombic cell)
+# independent: mu = sum q_i r_i with positions unwrapped by minimum image relative to atom 0 through the first atom of each residue (orthorhombic cell)
 x = t.xyz.astype(float); L = t.unitcell_lengths
 def mic(v, f): return v - L[f] * np.round(v / L[f])
 want = np.zeros((t.n_frames, 3))
 for f in range(t.n_frames):
     for a in t.top.atoms:
         first = a.residue.atom(0).index
-        want[f] += q[a.index] * (mic(x[f, first] - x[f, a.index], f) + mic(x[f, 0] - x[f, first], f))
-chk("dipole_moments", got, want, 1e-3)
+        want[f] += q[a.index] * (mic(x[f, a.index] - x[f, first], f) + mic(x[f, first] - x[f, 0], f))
+chk("dipole_moments (sum q_i r_i)", got, want, 1e-3)
+# textbook case: -1 at the origin side, +1 displaced by +0.1 nm along x: the dipole points from - to +
+top2 = md.Topology(); ch2 = top2.add_chain(); r2 = top2.add_residue("ION", ch2); top2.add_atom("A", el.chlorine, r2); top2.add_atom("B", el.sodium, r2)
+t2 = md.Trajectory(np.array([[[0.5, 0.5, 0.5], [0.6, 0.5, 0.5]]], dtype=np.float32), top2, unitcell_lengths=[[3, 3, 3]], unitcell_angles=[[90, 90, 90]])
+chk("dipole of (-1 at x, +1 at x + 0.1)", md.geometry.dipole_moments(t2, np.array([-1.0, 1.0])), [[0.1, 0.0, 0.0]], 1e-5)
 ''',
     "rdf_normalisation": '''
 t = system(n_frames=3); pairs = np.array(list(itertools.combinations(range(t.n_atoms), 2)))
